@@ -518,6 +518,9 @@ def unparse(e):
         if len(e["args"]) == 1 and f_.get("k") == "Path" and len(f_.get("segs", [])) == 2 and f_["segs"][1] == "from" and f_["segs"][0] in _NUM_TYPES:
             # the lossless conversion `u32::from(x)` denotes the same value as `x as u32`
             return "(%s as %s)" % (u(e["args"][0]), f_["segs"][0])
+        if len(e["args"]) == 1 and f_.get("k") == "Path" and len(f_.get("segs", [])) == 2 and f_["segs"][1] == "try_from" and f_["segs"][0] in _NUM_TYPES:
+            # `u32::try_from(x)` is the call `x.try_into()` resolves to (that spelling never named the type)
+            return "%s.try_into()" % u(e["args"][0])
         return "%s(%s)" % (u(e["func"]), u(e["args"]))
     if k == "MethodCall":
         return "%s.%s%s(%s)" % (u(e["recv"]), e["method"], e.get("turbofish", "").replace(" ", ""), u(e["args"]))
@@ -2045,7 +2048,7 @@ def inline_helpers(fn, depth=2, max_lines=60, keep=(), private_only=True):
         callee = _same_file_fn(cur, name)
         if callee is None or callee is cur or not callee.get("body") or (callee["body"].get("le", 0) - callee["body"].get("ln", 0)) > max_lines:
             return out
-        if private_only and callee.get("vis"):
+        if private_only and callee.get("vis") and not str(callee.get("vis")).replace(" ", "").startswith(("pub(crate)", "pub(super)", "pub(self)")):
             return out  # a public function is an interface the rules may talk about, not a local helper
         if recv is not None:
             takes_self = bool(callee["sig"]["inputs"]) and "self" in callee["sig"]["inputs"][0]
